@@ -7,7 +7,7 @@
    clause "no (local, remote) pair is listed twice" is refuted by one exotic history (known finding
    C06.no_duplicate_pairs.two_prflx_superseded; witness on the model: Findings/F_C06_two_prflx.v). *)
 From Coq Require Import ZArith Bool List.
-From Ice Require Import Model.AgentTypes Model.AgentCore Gen.Consts Proofs.AgentFrame Proofs.AgentC06 Proofs.AgentC03Sel Proofs.AgentLoc Proofs.AgentRem Proofs.AgentRemOK Proofs.AgentSupersede.
+From Ice Require Import Model.AgentTypes Model.AgentCore Gen.Consts Proofs.AgentFrame Proofs.AgentC06 Proofs.AgentC03Sel Proofs.AgentLoc Proofs.AgentRem Proofs.AgentRemOK Proofs.AgentSupersede Proofs.AgentEnds.
 Import ListNotations.
 Local Open Scope Z_scope.
 
@@ -153,3 +153,39 @@ Module C06_example_supersede.
     map pair_priority (s_checklist s') = map pair_priority (s_checklist s).
   Proof. vm_compute. repeat split. Qed.
 End C06_example_supersede.
+
+(* "pair IDs ... keep addressing the same transport-address pair" and are "never reused": for every history that hands
+   the agent fresh candidate objects and datagrams of the socket's own address family ([ops_ok]), and any two points
+   of it: the pair listed under an ID at the later point has the same local candidate and the same remote network type
+   and address as the pair listed under that ID at the earlier point -- across supersession, failure and Restart. *)
+Theorem C06_pair_id_keeps_its_ends_all_histories : forall cfg lu lp ops1 ops2,
+  ops_ok cfg (init lu lp) (ops1 ++ ops2) ->
+  let s1 := fst (run cfg lu lp ops1) in
+  let s2 := fst (run cfg lu lp (ops1 ++ ops2)) in
+  forall p p', In p (s_checklist s1) -> In p' (s_checklist s2) -> p_id p' = p_id p ->
+    p_loc p' = p_loc p /\ c_net (p_rem p') = c_net (p_rem p) /\ c_addr (p_rem p') = c_addr (p_rem p).
+Proof. exact pair_id_keeps_its_ends. Qed.
+Print Assumptions C06_pair_id_keeps_its_ends_all_histories.
+
+(* one operation, from any state with unique pair ids (and, for AddRemoteCandidate, consistent remote bookkeeping) *)
+Theorem C06_pair_id_keeps_its_ends_step : forall cfg s o,
+  InvU s -> (match o with AddRemote _ => Rm s | _ => True end) ->
+  let s' := fst (step cfg s o) in
+  s_next_pair s <= s_next_pair s' /\
+  forall p', In p' (s_checklist s') ->
+    s_next_pair s < p_id p' \/ exists p, In p (s_checklist s) /\ p_id p = p_id p' /\ same_ends p p'.
+Proof. exact step_E. Qed.
+Print Assumptions C06_pair_id_keeps_its_ends_step.
+
+(* non-vacuity: the supersession history above is admissible, and pair 1 exists before and after *)
+Example C06_example_ends_admissible :
+  ops_ok C06_example_supersede.cfg (init 1 2)
+    [AddLocal C06_example_supersede.l; Start false 3 4; InStun 1 C06_example_supersede.src C06_example_supersede.req;
+     AddRemote C06_example_supersede.c].
+Proof.
+  cbn [ops_ok op_ok]. repeat split;
+    first [ intros l0 E; vm_compute in E; injection E as <-; reflexivity
+          | vm_compute; reflexivity
+          | vm_compute; intros [H|[]]; discriminate H
+          | vm_compute; intros [] ].
+Qed.
